@@ -18,7 +18,7 @@ RULE = ("lengths {1,2,3,9,10,11,25,60} x topic mix {own, alternating, foreign-he
 ASSUMPTIONS = ["Redis and RabbitMQ are wire-level fakes (RabbitMQ: FIFO per priority, requeue to original position)",
                "single priority per run (priority order is randomised by design on redis)", "messages deliverable at enqueue time (no delay)"]
 EVAL_COUNTER = "deliveries_judged"
-REQUIRED = ["deliveries_judged", "mode_all", "mode_steady", "mode_reject", "returns_judged", "long_backlogs", "stale_delay_messages", "idle_polls_timed_out"]
+REQUIRED = ["deliveries_judged", "mode_all", "mode_steady", "mode_reject", "returns_judged", "long_backlogs", "stale_delay_messages", "idle_polls_timed_out", "expired_messages_in_the_queue"]
 CASE_TIMEOUT = 120
 
 LENGTHS = [1, 2, 3, 9, 10, 11, 25, 60]
@@ -42,6 +42,7 @@ def gen_cases(tier, seed):
             for n, mix, mode in combos:
                 cases.append({"kind": kind, "n": n, "mix": mix, "mode": mode, "prio": rnd.choice([0, 5, 9]), "mu": rnd.choice([None, None, 1, 4, 1000]),
                               "seed": rnd.randrange(10**6), "latency": None if kind == "mem" else rnd.choice([None, 0.002])})
+                cases[-1]["expired"] = mode in ("all", "steady") and cases[-1]["seed"] % 3 == 0
     return cases
 
 
@@ -79,6 +80,7 @@ async def scenario(loop, case, out, stats, fps, samples):
 
         from repid.data._parameters import DelayProperties, RetriesProperties
 
+        expired = set()
         stale = set()  # deliverable messages that still carry delay bookkeeping (like a retried or rescheduled message)
 
         async def enq():
@@ -86,6 +88,11 @@ async def scenario(loop, case, out, stats, fps, samples):
             id_ = f"m{seq:04d}"
             t = topic_for(seq)
             params = P()
+            if case.get("expired") and rnd.random() < 0.25:
+                # a message whose time-to-live ran out before anybody asked for it: it is dead-lettered on the way, and the
+                # order of everything else is what it would have been without it
+                params = P(timestamp=_dt.now() - _td(hours=1), ttl=_td(seconds=1))
+                expired.add(id_)
             if mode == "reject" and t == "own" and rnd.random() < 0.35:
                 params = P(retries=RetriesProperties(max_amount=3, already_tried=1), delay=DelayProperties(next_execution_time=_dt.now() - _td(seconds=rnd.choice([0.5, 5, 60]))))
                 stale.add(id_)
@@ -93,7 +100,7 @@ async def scenario(loop, case, out, stats, fps, samples):
             body = f"p{seq}" + ("x" * 70_000 if seq % 5 == 2 else "")
             await mb.enqueue(key_of(conn, id_, t, "q", case["prio"]), body, params)
             order[id_] = seq
-            if t == "own":
+            if t == "own" and id_ not in expired:
                 own.add(id_)
             seq += 1
             return id_
@@ -178,11 +185,14 @@ async def scenario(loop, case, out, stats, fps, samples):
         first = {}
         for pos, id_ in enumerate(delivered):
             first.setdefault(id_, pos)
-            if id_ not in own:
+            if id_ in expired:
+                out.append(V("foreign_delivered", kind, ctx + "/expired", f"{id_} had outlived its time-to-live but was delivered"))
+            elif id_ not in own:
                 out.append(V("foreign_delivered", kind, ctx, f"{id_} has a foreign topic but was delivered"))
         # never-returned messages: delivery order == enqueue order
         seqn = [id_ for id_ in delivered if id_ not in returned_at and id_ not in stale]
         stats["stale_delay_messages"] += len(stale)
+        stats["expired_messages_in_the_queue"] += len(expired)
         last = -1
         for id_ in seqn:
             stats["deliveries_judged"] += 1
